@@ -380,6 +380,7 @@ impl World {
                 break;
             }
             pages.push(page.len());
+            let before = after.clone();
             for m in &page {
                 let (n, c) = match m {
                     Value::String(s) => (s.clone(), 1u32),
@@ -388,8 +389,9 @@ impl World {
                 after = Some(n.clone());
                 out.push((id_of(&n), c));
             }
-            if out.len() > 100_000 || pages.len() > 100_000 {
-                return Err("members: pagination does not end".into());
+            // no progress (the page ends where it was asked to start after): would never end
+            if after == before || out.len() > 100_000 || pages.len() > 100_000 {
+                return Err(format!("members: pagination does not advance past {:?}", after));
             }
         }
         Ok((out, pages))
